@@ -125,8 +125,9 @@ def X_incarnation_lifecycle(ctx):
         fz = [e for e in p.events if e.kind == 'call' and e.d['callee'].endswith('::finalize')]
         if not fz or idx_of(p, fz[0]) < idx_of(p, run[0]):
             bad.append('finalize() is not called after the run on every path (a failed run must also be finalized: revm keeps loaded accounts and slots cached in the journal until finalize, and a cached read never reaches IncarnationDb)')
-        dec = [a for a in p.events if a.kind == 'atom' and a.d['term'][0] == 'discr' and a.d['outcome'] in ('Ok', 'Err') and has_call(a.d['term'][1], 'Result::map')]
-        if dec and dec[-1].d['outcome'] == 'Ok':
+        # Ok/Err of the handler run (decided on the run's result itself or on a value derived from it)
+        dec = [of for of in (option_fact(a) for a in p.events) if of and of[1] in ('Ok', 'Err') and mentions(of[0], run[0].d['result'])]
+        if dec and dec[-1][1] == 'Ok':
             rows.add('ok')
             if len(fin) != 1 or dis or not has_call(fin[0].d['args'][1], 'SpeculativeResult::state'):
                 bad.append('Ok result must finish_incarnation(result.state())')
